@@ -30,6 +30,8 @@ type c15Case struct {
 	SA     string        `json:"arg_scalar,omitempty"`
 	SB     string        `json:"arg_scalar2,omitempty"`
 	U      uint64        `json:"u,omitempty"`
+	// ZeroArg: the *Element argument is a zero-value Element (all limbs zero, never initialised).
+	ZeroArg bool `json:"zero_value_element_arg,omitempty"`
 	// NonCanon: the *Scalar arguments carry non-reduced limbs (n + k, written through the exported field S): still
 	// caller-owned memory that must not be written.
 	NonCanon bool `json:"non_canonical_scalar_args,omitempty"`
@@ -59,7 +61,7 @@ func init() {
 		Require: func(string) map[string]int64 {
 			return map[string]int64{
 				"mode:trap": 2000, "mode:canary": 2000, "layout:spare1": 100, "layout:spare8": 100, "layout:spare64": 100, "layout:interior": 100, "layout:page-end": 100, "layout:zero-len": 20,
-				"kind:ptr": 1000, "kind:fresh": 500, "kind:retain": 100, "ptr:non-canonical-scalar-args": 100, "trap-liveness-probe-fired": 1, "dst:oversize": 100, "dst<=255": 300, "call:rejected": 100, "call:panicked": 6,
+				"kind:ptr": 1000, "kind:fresh": 500, "kind:retain": 100, "ptr:non-canonical-scalar-args": 100, "ptr:zero-value-element-arg": 50, "trap-liveness-probe-fired": 1, "dst:oversize": 100, "dst<=255": 300, "call:rejected": 100, "call:panicked": 6,
 			}
 		},
 	})
@@ -106,6 +108,8 @@ func c15Generate(c *mon.Ctx) {
 	g := oracle.G()
 	inputs := []string{
 		mon.H(oracle.EncC(g)), mon.H(oracle.EncU(g)), "00", "", mon.H(append([]byte{2}, oracle.Bytes32(oracle.P)...)), mon.H(append([]byte{3}, oracle.Bytes32(big.NewInt(5))...)),
+		// SEC1 hybrid forms of a valid point (prefix 06/07 by the parity of y): if accepted at all they must not be rewritten in place
+		mon.H(append([]byte{6 + byte(g.Y.Bit(0))}, oracle.EncU(g)[1:]...)), mon.H(append([]byte{7 - byte(g.Y.Bit(0))}, oracle.EncU(g)[1:]...)),
 		mon.H(oracle.Bytes32(big.NewInt(12345))), mon.H(oracle.Bytes32(oracle.N)), mon.H(oracle.Bytes32(new(big.Int).Sub(oracle.N, big.NewInt(1)))), pat(31, 9), pat(64, 7),
 	}
 
@@ -139,6 +143,13 @@ func c15Generate(c *mon.Ctx) {
 		for _, fn := range c15FreshFns {
 			e := mon.MkElemCase(pv, reprs[i%len(reprs)])
 			cs := &c15Case{Kind: "fresh", Fn: fn, E: &e, S: svals[i%len(svals)]}
+			c.Structured(func() any { return cs })
+		}
+
+		for j, fn := range []string{"Element.Add", "Element.Subtract", "Element.Equal", "Element.Set"} {
+			e := mon.MkElemCase(pv, reprs[0])
+			ea := mon.MkElemCase(other, oreprs[0])
+			cs := &c15Case{Kind: "ptr", Fn: fn, Mode: []string{"trap", "canary"}[(i+j)%2], E: &e, EA: &ea, S: "1", SA: "2", SB: "3", ZeroArg: true}
 			c.Structured(func() any { return cs })
 		}
 
@@ -474,6 +485,11 @@ func c15RunPtr(c *mon.Ctx, cs *c15Case) {
 
 	x, y, z := cs.EA.R.Repr().Coords(cs.EA.P.Pt())
 	secp256k1.VSetRaw(ea, oracle.ToMont(x, oracle.P), oracle.ToMont(y, oracle.P), oracle.ToMont(z, oracle.P))
+
+	if cs.ZeroArg {
+		c.Count("ptr:zero-value-element-arg")
+		secp256k1.VSetRaw(ea, [4]uint64{}, [4]uint64{}, [4]uint64{})
+	}
 	sa.S = oracle.ToMont(mon.BigH(cs.SA), n)
 	sb.S = oracle.ToMont(mon.BigH(cs.SB), n)
 
